@@ -201,6 +201,10 @@ func genC06(r *vh.Rand) c06Spec {
 			s.Msgs = append(s.Msgs, g.next(true))
 			s.Headers = append(s.Headers, r.Choose("", "", "2025-06-18", "2025-11-25", "2026-07-28"))
 		}
+		if r.Chance(1, 3) {
+			// the other transport that cannot serve 2026-07-28: a session of the HTTP+SSE handler (no version header there)
+			s.Transport = "sse"
+		}
 		return s
 	}
 	for i, k := 0, r.Range(3, 10); i < k; i++ {
@@ -512,6 +516,52 @@ func runC06(c *vh.Case, spec c06Spec) {
 		}
 	}
 
+	// legacyOnly judges one metadata-carrying message sent to an endpoint whose transport cannot serve 2026-07-28 (a
+	// stateful streamable endpoint, an HTTP+SSE session): apart from server/discover, from whose answer a client learns
+	// the versions on offer, nothing of the kind may be served.
+	legacyOnly := func(i int, m c06Msg, rep c06Reply, got []string, st int, hdrVer, keyName, what string) bool {
+		rejects++
+		if st >= 500 {
+			c.Violate("http-5xx", "message %d %s answered HTTP %d", i, m.Raw, st)
+			return false
+		}
+		if m.Sym == "discover" {
+			return true
+		}
+		reachedThis := false
+		for _, g := range got {
+			if g == m.Method {
+				reachedThis = true
+			}
+		}
+		if reachedThis || rep.OK {
+			c.Violate("new-protocol-served-by-"+keyName, "message %d %s (header Mcp-Protocol-Version=%q, established=%v) was served (reached handler=%v, reply %+v): a %s does not support 2026-07-28 and must answer -32022 (or -32602 for incomplete metadata)", i, m.Raw, hdrVer, spec.Established, reachedThis, rep, what)
+			return false
+		}
+		incomplete := m.Meta == "nocaps" || m.Meta == "badcaps" || m.Meta == "nullcaps" || m.Meta == "badinfo" || m.Meta == "badcaps-member" || m.Meta == "badcaps-nested"
+		if rep.Seen && !(rep.Code == -32022 || (incomplete && rep.Code == -32602) || (removed[m.Method] && rep.Code == -32601)) {
+			c.Violate("wrong-metadata-rejection", "message %d %s on a %s (header %q): expected -32022 (or -32602 for incomplete metadata), got %+v", i, m.Raw, what, hdrVer, rep)
+			return false
+		}
+		if rep.Code == -32022 {
+			var d struct {
+				Supported []string `json:"supported"`
+			}
+			json.Unmarshal([]byte(rep.Data), &d)
+			okList := len(d.Supported) > 0
+			for _, v := range d.Supported {
+				if !slices.Contains(c06Supported, v) || (v >= "2026-07-28" && m.Meta != "badver") {
+					okList = false
+				}
+			}
+			if !okList {
+				c.Violate("unsupported-version-without-list", "message %d: -32022 from a %s must list the (legacy) versions it supports, data was %s", i, what, rep.Data)
+				return false
+			}
+		}
+		return true
+	}
+
 	if spec.Transport == "stdio" {
 		cr, sw := io.Pipe()
 		sr, cw := io.Pipe()
@@ -582,6 +632,71 @@ func runC06(c *vh.Case, spec c06Spec) {
 		ss.Wait()
 		sw.Close()
 		<-done
+	} else if spec.Transport == "sse" {
+		h := mcp.NewSSEHandler(func(*http.Request) *mcp.Server { return server }, nil)
+		ip := &vhm.InProc{Handler: h}
+		gctx, gcancel := context.WithCancel(ctx)
+		greq, _ := http.NewRequestWithContext(gctx, "GET", "http://example.test/sse", nil)
+		resp, err := ip.RoundTrip(greq)
+		if err != nil || resp.StatusCode != 200 {
+			gcancel()
+			c.Inconclusive("sse GET failed: %v", err)
+			return
+		}
+		var rmu sync.Mutex
+		replies := map[string]c06Reply{}
+		endpoint := make(chan string, 1)
+		done := make(chan struct{})
+		go func() {
+			defer close(done)
+			vhm.ReadSSE(resp.Body, func(e vhm.SSEvent) {
+				if e.Name == "endpoint" {
+					endpoint <- e.Data
+					return
+				}
+				id, rep := parseC06Reply([]byte(e.Data))
+				rmu.Lock()
+				replies[id] = rep
+				rmu.Unlock()
+			})
+		}()
+		ep := <-endpoint
+		post := func(body string) int {
+			st, _, _, err := ip.Do(ctx, "POST", "http://example.test"+ep, map[string]string{"Content-Type": "application/json"}, []byte(body))
+			if err != nil {
+				return -1
+			}
+			return st
+		}
+		if spec.Established {
+			post(`{"jsonrpc":"2.0","id":"i","method":"initialize","params":{"protocolVersion":"2025-06-18","capabilities":{},"clientInfo":{"name":"legacy","version":"1"}}}`)
+			post(`{"jsonrpc":"2.0","method":"notifications/initialized"}`)
+			synctestWait()
+			time.Sleep(ms(1))
+			takeReached()
+		}
+		for i, m := range spec.Msgs {
+			st := post(m.Raw)
+			synctestWait()
+			time.Sleep(ms(1))
+			synctestWait()
+			rmu.Lock()
+			rep := replies[m.ID]
+			rmu.Unlock()
+			got := takeReached()
+			log.Add("msg", "i", i, "sym", m.Sym, "meta", m.Meta, "ok", rep.OK, "code", rep.Code, "status", st)
+			sig.WriteString(m.Sym + "/" + m.Meta + "/sse;")
+			if !legacyOnly(i, m, rep, got, st, "", "sse-session", "HTTP+SSE session") {
+				break
+			}
+		}
+		gcancel()
+		resp.Body.Close()
+		<-done
+		ip.Wait()
+		for ss := range server.Sessions() {
+			ss.Close()
+		}
 	} else if spec.Transport == "http-stateful" {
 		h := mcp.NewStreamableHTTPHandler(func(*http.Request) *mcp.Server { return server }, nil)
 		ip := &vhm.InProc{Handler: h, AsyncDelete: true}
@@ -639,45 +754,8 @@ func runC06(c *vh.Case, spec c06Spec) {
 			got := takeReached()
 			log.Add("msg", "i", i, "sym", m.Sym, "meta", m.Meta, "header", spec.Headers[i], "ok", rep.OK, "code", rep.Code, "status", st)
 			sig.WriteString(m.Sym + "/" + m.Meta + "/" + spec.Headers[i] + ";")
-			rejects++
-			if st >= 500 {
-				c.Violate("http-5xx", "message %d %s answered HTTP %d", i, m.Raw, st)
+			if !legacyOnly(i, m, rep, got, st, spec.Headers[i], "stateful-endpoint", "stateful endpoint") {
 				break
-			}
-			if m.Sym == "discover" {
-				continue // exempt: a client learns the supported versions from its result (or from the error)
-			}
-			// every other request carrying 2026-07-28 metadata is a request for a protocol this endpoint does not serve
-			reachedThis := false
-			for _, g := range got {
-				if g == m.Method {
-					reachedThis = true
-				}
-			}
-			if reachedThis || rep.OK {
-				c.Violate("new-protocol-served-by-stateful-endpoint", "message %d %s (header Mcp-Protocol-Version=%q, established=%v) was served (reached handler=%v, reply %+v): a stateful endpoint does not support 2026-07-28 and must answer -32022 (or -32602 for incomplete metadata)", i, m.Raw, spec.Headers[i], spec.Established, reachedThis, rep)
-				break
-			}
-			incomplete := m.Meta == "nocaps" || m.Meta == "badcaps" || m.Meta == "nullcaps" || m.Meta == "badinfo" || m.Meta == "badcaps-member" || m.Meta == "badcaps-nested"
-			if rep.Seen && !(rep.Code == -32022 || (incomplete && rep.Code == -32602) || (removed[m.Method] && rep.Code == -32601)) {
-				c.Violate("wrong-metadata-rejection", "message %d %s on a stateful endpoint (header %q): expected -32022 (or -32602 for incomplete metadata), got %+v", i, m.Raw, spec.Headers[i], rep)
-				break
-			}
-			if rep.Code == -32022 {
-				var d struct {
-					Supported []string `json:"supported"`
-				}
-				json.Unmarshal([]byte(rep.Data), &d)
-				okList := len(d.Supported) > 0
-				for _, v := range d.Supported {
-					if !slices.Contains(c06Supported, v) || v >= "2026-07-28" {
-						okList = false
-					}
-				}
-				if !okList {
-					c.Violate("unsupported-version-without-list", "message %d: -32022 from a stateful endpoint must list the (legacy) versions it supports, data was %s", i, rep.Data)
-					break
-				}
 			}
 		}
 		ip.Wait()
